@@ -61,7 +61,7 @@ BUDGET = {'quick': 25, 'thorough': 300}
 EXHAUSTIVE = {'quick': False, 'thorough': True}
 FLOORS = {
     # derived from the enumerated parts (exact there) or >= 5x below what the sampled loops add
-    'quick': {'roundtrip_cases': 23000, 'roundtrip_parses_compared': 150000, 'roundtrip_bang_cases': 2086,
+    'quick': {'twin_cases': 11, 'roundtrip_cases': 23000, 'roundtrip_parses_compared': 150000, 'roundtrip_bang_cases': 2086,
               'roundtrip_quoted_shape_checked': 5000,
               'sheetclass:space+apostrophe': 1400, 'sheetclass:apostrophe': 800, 'sheetclass:cell-lookalike': 4000,
               'sheetclass:unicode': 2300, 'sheetclass:digits': 1400, 'sheetclass:hyphen': 500,
@@ -871,6 +871,36 @@ def part_directed(ctx):
         ctx.case(('t3',) + a + b + c)
 
 
+# sheet names that differ in one character of a class a careless key could drop: parsed one after the other
+TWIN_SHEETS = [('US', 'US$'), ('EUR', '$EUR'), ('ab', 'a$b'), ('ab', 'a b'), ('a b', 'a  b'), ('its', "it's"),
+               ('S1', 'S.1'), ('Data', 'Data_'), ('P&L', 'P&L '), ('x', 'x"'), ('2020', '2020 ')]
+TWIN_COORDS = ['A1', '$A$1', 'B$2', 'C3:D4', '$C$3:$D$4', 'XFD1048576']
+
+
+def check_twins(ctx, case):
+    x, y = case['sheets']
+    P = px()
+    for coord in TWIN_COORDS:
+        for order in ((x, y, x), (y, x, y)):
+            for sh in order:
+                text = R.quote(sh) + '!' + coord
+                got = attempt(lambda: P.AddressRange.create(text))
+                ctx.count('twin_parses')
+                if got[0] == 'x' or isinstance(got[1], str) or got[1].sheet != sh or \
+                        got[1].coordinate != coord.replace('$', ''):
+                    ctx.violation('roundtrip/twin-sheet-names/' + ('exception' if got[0] == 'x' else 'other-address'),
+                                  f'{text!r} parsed after {[R.quote(s) + "!" + coord for s in order]} up to it is '
+                                  f'{show(got)}: sheet {sh!r}, coordinate {coord.replace("$", "")!r} expected', case)
+                    return
+
+
+def part_twins(ctx):
+    for pair in TWIN_SHEETS:
+        ctx.count('twin_cases')
+        check_twins(ctx, {'kind': 'twins', 'sheets': list(pair)})
+        ctx.case(('twins',) + pair)
+
+
 def part_roundtrip(ctx):
     rects = boundary_rects()
     sheets = [''] + LEGAL_SHEETS + BANG_SHEETS
@@ -1116,7 +1146,7 @@ def part_large(ctx):
 
 
 CHECKS = {'roundtrip': check_roundtrip, 'notation': check_notation, 'enum': check_enum,
-          'offset': check_offset, 'pair': check_pair, 'triple': check_triple}
+          'offset': check_offset, 'pair': check_pair, 'triple': check_triple, 'twins': check_twins}
 
 
 def run(ctx):
@@ -1124,6 +1154,8 @@ def run(ctx):
     # enumerations come last and do not look at the clock (they are sized to finish: 70 k pairs, 1 M triples)
     if ctx.shard == 0:
         part_directed(ctx)
+    if ctx.shard == 1 % ctx.nshards:
+        part_twins(ctx)
     part_roundtrip(ctx)
     part_notation(ctx)
     part_enum(ctx)
